@@ -75,7 +75,7 @@ Definition code_clear_late : async_code :=
      ac_build_guard := ac_build_guard code; ac_build_exn := ac_build_exn code;
      ac_handle_by_reply_tid := ac_handle_by_reply_tid code; ac_lost_clears := ac_lost_clears code;
      ac_lost_clear_first := false; ac_lost_loop := ac_lost_loop code; ac_lost_exn := ac_lost_exn code;
-     ac_unit_default := ac_unit_default code; ac_unit_wild := ac_unit_wild code;
+     ac_close_clears := ac_close_clears code; ac_unit_default := ac_unit_default code; ac_unit_wild := ac_unit_wild code;
      ac_unit_wild_on_frame := ac_unit_wild_on_frame code |}.
 
 Lemma reentrant_errback_needs_clear_first :
@@ -104,4 +104,10 @@ Lemma plain_unit_first_filters :
   let σ := arun code VDict [Made; Execute; Execute; Execute; Execute;
                             Segment [(1, 2, 12); (255, 1, 11); (0, 3, 13); (2, 4, 14)]] (init_state code) in
   a_pending σ = [(1, 1); (3, 3); (4, 4)] /\ a_fired σ = [(2, OCb 2 12)].
+Proof. vm_compute. split; reflexivity. Qed.
+
+(* close() by the user, then a request, then the loss of the transport is reported *)
+Lemma close_then_execute :
+  let σ := arun code VDict [Made; Execute; Close; Execute; Lost] (init_state code) in
+  a_pending σ = [] /\ a_fired σ = [(2, OErr ConnectionExc); (1, OErr ConnectionExc)].
 Proof. vm_compute. split; reflexivity. Qed.
